@@ -1,13 +1,16 @@
 """C16 — Extensions run in priority order and registry edits do what they say."""
 import itertools
 import os
+import re
+import subprocess
 
 import kv
 from kv import Case, xn, xb, xl, xlist, xz
 
 ID = "C16"
 MODULE = "C16"
-IMPORTS = "Bytes RustStd Registry PresentLine RunOrder RustStdProofs RegistryProofs PresentLineProofs RunOrderProofs"
+MAX_NOT_EXECUTED = 25      # harness trouble (load) is retried; more than this many cases without an implementation side fail the run
+IMPORTS = "Bytes RustStd Registry PresentLine RunOrder RunSpec RustStdProofs RegistryProofs PresentLineProofs RunOrderProofs RunSpecProofs"
 PROFILES = ("dev",)
 # C16_V0=1 selects the models of the code as it was before the repairs aa785b7 / e1abeb3 (reversed remove
 # comparator, data_start = pos + 2 on CRLF): used to reproduce the defects through the harness on the unrepaired tree.
@@ -35,6 +38,36 @@ def seq_case(kind_idx, ops, label, init=0):
     return reg_case(init, [rq(kind_idx, c, p, b"n%d" % i) for i, (c, p) in enumerate(ops)], label)
 
 
+_NEW = []
+
+
+def new_listing():
+    """What the real Extensions::new() lists (five vectors, three key sets), read from the harness built for this run: the start state
+    of the 'new' histories.  The model takes it as given (it only checks that the vectors are strictly descending), so the names and
+    priorities of kvarn's built-in extensions are not pinned by this check.  None if the harness cannot be asked."""
+    if not _NEW:
+        out = None
+        try:
+            binary = os.path.join(kv.HARNESS, "target", "debug", "kvh")
+            p = subprocess.run([binary], input="n reg.new_listing (L)\n", capture_output=True, text=True, timeout=300, env=kv.ENV)
+            for line in p.stdout.split("\n"):
+                if line.startswith("n (L (L"):
+                    out = kv.xparse(line[2:])
+        except Exception:
+            out = None
+        _NEW.append(out)
+    return _NEW[0]
+
+
+# bounded-exhaustive part of the quantifier ("all operation sequences up to length 8 over a small range"): what is affordable per tier.
+# alphabet = {add, add with no_override, remove} x priorities; every sequence of every length up to the bound is run on one of the five vectors.
+EXHAUSTIVE = {
+    "quick": [(3, [-2, -1, 0, 1, 2, 3]), (4, [0, 1, 2]), (5, [0, 1])],
+    "thorough": [(4, [-2, -1, 0, 1, 2, 3]), (6, [0, 1, 2]), (7, [0, 1])],
+}
+SAMPLED_8 = {"quick": 0, "thorough": 0.1}     # share of the length-8 sequences over two priorities that is run
+
+
 def registry_cases(rng, tier):
     cases = []
     # corpus: the confirmed defect ([10,5,1] cannot be emptied), replacement, no_override chains, i32::MIN
@@ -45,47 +78,49 @@ def registry_cases(rng, tier):
         cases.append(seq_case(k, [(0, I32_MIN), (1, I32_MIN), (0, I32_MIN + 1), (1, I32_MIN + 1), (2, I32_MIN), (1, I32_MIN + 1),
                                   (1, I32_MIN + 1)], "i32-min"))
         cases.append(seq_case(k, [(0, I32_MAX), (1, I32_MAX), (1, I32_MAX), (2, I32_MAX), (0, I32_MIN), (2, I32_MIN), (2, 0)], "i32-max"))
-    cases.append(reg_case(1, [], "new"))
     cases.append(Case("reg.present_fn_getter", xl(), "reg.present_fn_getter", {"kind": "getter"}))
-    # Extensions::new(): builtin priorities (prime 16777216, 16777215, -100; package 128, 10, -1327)
+    # histories that start from Extensions::new(): the start state is what the running code lists
+    new = new_listing()
+    init = new if new is not None else xn(1)
+    cases.append(Case(REG, xl(init, xlist([])), "reg.spec", {"kind": "new"}))
+    if new is not None:
+        builtin = sorted({_z(e[1][0]) for l in new[1][0][1] for e in l[1]})
+        keys = [k[1] for m in new[1][1][1] for k in m[1]]
+    else:
+        builtin, keys = [16777216, 16777215, -100, 128, 10, -1327], [b"/./cors_fail", b"/./cors_options", b"nonce"]
+    near = sorted({p + d for p in builtin for d in (-1, 0, 1) if I32_MIN <= p + d <= I32_MAX} | {0, 1})
     for _ in range(60 if tier == "quick" else 600):
         n = rng.randrange(1, 9)
         reqs = []
         for i in range(n):
             kind = rng.choice([0, 0, 3, 3, 1, 2, 4, 5, 6, 7])
             code = rng.choice([0, 0, 1, 2, 2])
-            prio = rng.choice([16777216, 16777215, 16777214, -100, -101, 128, 10, 9, 8, -1327, -1328, 0, 1])
-            name = rng.choice([b"/./cors_fail", b"/./cors_options", b"nonce", b"x", b"tmpl"]) if kind >= 5 else b"n%d" % i
-            reqs.append(rq(kind, code, prio, name))
-        cases.append(reg_case(1, reqs, "new"))
+            name = rng.choice(keys + [b"x", b"tmpl"]) if kind >= 5 else b"n%d" % i
+            reqs.append(rq(kind, code, rng.choice(near), name))
+        cases.append(Case(REG, xl(init, xlist(reqs)), "reg.spec", {"kind": "new"}))
     prios = [-2, -1, 0, 1, 2, 3]
     alphabet = [(c, p) for c in (0, 1, 2) for p in prios]
-
-    # exhaustive: all sequences up to length L over {add, add no_override, remove} x {-2..3}
-    exh_len = 3 if tier == "quick" else 4
     n = 0
-    for length in range(1, exh_len + 1):
-        for ops in itertools.product(alphabet, repeat=length):
-            cases.append(seq_case(n % 5, list(ops), "exhaustive<=%d" % exh_len))
-            n += 1
-    if tier == "thorough":
-        small = [(c, p) for c in (0, 1, 2) for p in (0, 1, 2)]
-        for length in (5, 6):
-            for ops in itertools.product(small, repeat=length):
-                cases.append(seq_case(n % 5, list(ops), "exhaustive-3prios<=6"))
-                n += 1
-        tiny = [(c, p) for c in (0, 1, 2) for p in (0, 1)]
-        for length in (7, 8):
-            for ops in itertools.product(tiny, repeat=length):
-                if length == 8 and rng.random() < 0.8:
+    seen = set()
+    for bound, ps in EXHAUSTIVE[tier]:
+        alpha = [(c, p) for c in (0, 1, 2) for p in ps]
+        for length in range(1, bound + 1):
+            for ops in itertools.product(alpha, repeat=length):
+                if ops in seen:
                     continue
-                cases.append(seq_case(n % 5, list(ops), "exhaustive-2prios-7/sampled-8"))
+                seen.add(ops)
+                cases.append(seq_case(n % 5, list(ops), "exhaustive<=%d/%dprios" % (bound, len(ps))))
                 n += 1
-    # sampled: lengths 4..8 over the full alphabet
+    if SAMPLED_8[tier]:
+        tiny = [(c, p) for c in (0, 1, 2) for p in (0, 1)]
+        for ops in itertools.product(tiny, repeat=8):
+            if rng.random() < SAMPLED_8[tier]:
+                cases.append(seq_case(n % 5, list(ops), "sampled-8/2prios"))
+                n += 1
+    # sampled: lengths up to 8 over the full alphabet
     for _ in range(12000 if tier == "quick" else 150000):
-        length = rng.randrange(exh_len + 1, 9)
+        length = rng.randrange(4, 9)
         ops = [rng.choice(alphabet) for _ in range(length)]
-        # bias: make removes hit existing priorities more often
         cases.append(seq_case(rng.randrange(5), ops, "sampled<=8"))
     # mixed kinds (incl. the hash maps) with the final full listing: no edit touches another list
     for _ in range(1500 if tier == "quick" else 20000):
@@ -140,7 +175,7 @@ def bsearch_cases(rng, tier):
 # ------------------------------------------------------------------------------------------
 TOKEN_PIECES = [b"a", b"b", b"tmpl", b"standard.html", b"md.html", b"allow-ips", b"10.0.0.16", b"cache", b"server:full", b"hide", b"nonce",
                 b"&", b">", b"&>x", b"x&>", b"&&>", b"!>", b"!", b"\xc3\xa9", b"\xe2\x82\xac", b"\xf0\x9f\x98\x80", b"z\xc3\xa5", b"0", b"-", b"/", b"=",
-                b"\t", b"\x0b", b"\x00", b"\x7f", b"\"q\""]
+                b"\t", b"\x0b", b"\x0c", b"\xc2\xa0", b"\x00", b"\x7f", b"\"q\""]
 BODIES = [b"", b"x", b"body", b"File's contents.\n", b"\n", b"\r\n", b"!> other\nrest", b"\nsecond", b" ", b"a b &> c\n", b"\xff\xfe"]
 
 
@@ -211,7 +246,7 @@ def present_cases(rng, tier):
     for _ in range(6000 if tier == "quick" else 120000):
         line = grammar_line(rng)
         cases.append(Case(PARSE, xb(line + rng.choice(BODIES)), "present.spec", {"kind": "grammar"}))
-    alphabet = b" &>!\r\nab\xc3\xa9\xff\t"
+    alphabet = b" &>!\r\nab\xc3\xa9\xff\t\x0c"
     for _ in range(5000 if tier == "quick" else 100000):
         r = rng.random()
         if r < 0.6:
@@ -241,107 +276,202 @@ def present_cases(rng, tier):
     for _ in range(6000 if tier == "quick" else 120000):
         cases.append(line_case(words(rng), rng.random() < 0.5, rng.choice(BODIES), "grammar-words"))
     cases.append(Case("present.empty_args", xl(), "present.empty_args", {"kind": "empty-args"}))
+    # the argument iterator read from the back (kvarn_extensions' templates: arguments.iter().rev()) and by interleavings of next / next_back
+    rev_lines = [b"!> tmpl a b\n", b"!> tmpl a b c d &> x &> y 1\r\nrest", b"!> a\n", b"!> a b\n", b"!>  tmpl   standard.html  md.html  &>\nx", b"!> a a a &> a a\n"]
+    for d in rev_lines + MALFORMED:
+        cases.append(Case("present.parse_rev", xb(d), "present.rev_spec", {"kind": "args-rev"}))
+    for _ in range(2500 if tier == "quick" else 50000):
+        r = rng.random()
+        d = grammar_line(rng) + rng.choice(BODIES) if r < 0.8 else b"!> " + bytes(rng.choice(alphabet) for _ in range(rng.randrange(0, 24)))
+        cases.append(Case("present.parse_rev", xb(d), "present.rev_spec", {"kind": "args-rev"}))
+    for bits in itertools.product((0, 1), repeat=4):
+        for d in rev_lines[:3]:
+            cases.append(sched_case(d, bits, "args-interleaved"))
+    for _ in range(2500 if tier == "quick" else 50000):
+        bits = [rng.randrange(2) for _ in range(rng.randrange(0, 9))]
+        cases.append(sched_case(grammar_line(rng) + rng.choice(BODIES), bits, "args-interleaved"))
+    for n in range(4):
+        for bits in itertools.product((0, 1), repeat=n):
+            cases.append(Case("present.empty_sched", xlist([xn(b) for b in bits]), "present.empty_sched", {"kind": "empty-args"}))
     return cases
 
 
+def sched_case(data, bits, kind):
+    return Case("present.sched", xl(xb(data), xlist([xn(b) for b in bits])), "present.sched_spec", {"kind": kind})
+
+
 # ------------------------------------------------------------------------------------------
-# run order: registry edits with marker extensions, then real requests
+# run order: registry edits with marker extensions, then a history of real requests
 # ------------------------------------------------------------------------------------------
 PATHS = [b"/", b"/a", b"/b.html", b"/c.txt", b"/d/e.html", b"/x.y.md", b"/.hid", b"/zz", b"/d/f"]
+QUERIES = [b"", b"", b"", b"?x=1", b"?x=2", b"?"]
+UNSAFE = [b"/a/../b.html", b"/./a", b"//a", b"/d/./e.html", b"/a/.."]
 OVERRIDES = [b"/./ov1", b"/./ov2"]
 PREFIXES = [b"/", b"/a", b"/d/", b"/b", b"/x", b"/zz", b"/nomatch"]
-FILE_EXTS = [b"html", b"txt", b"md", b"y"]
+FILE_EXTS = [b"html", b"txt", b"md", b"y", b"hid", b"zz"]
+FILE_PATHS = [b"/b.html", b"/c.txt", b"/d/e.html", b"/x.y.md", b"/.hid", b"/zz", b"/f.html"]
 INTERNAL = [b"tmpl", b"hide", b"x", b"allow-ips", b"a"]
 PBODIES = [b"plain", b"", b"!> tmpl a b &> hide\nBODY", b"!> hide\r\nX", b"!> x\r\n", b"!> x\n", b"!>  tmpl   standard.html  md.html  &>\r\nrest",
-           b"!> unknown arg &> hide 1 2 3 &> a\nrest", b"!> a &> a &> a x\n\n", b"!> hide", b"<html>"]
+           b"!> unknown arg &> hide 1 2 3 &> a\nrest", b"!> a &> a &> a x\n\n", b"!> hide", b"<html>", b"0123456789"]
 # first lines outside the grammar of the property (the line begins "!>  &> "; a word is not UTF-8; a CR inside the line): the parser answers
 # None or splits at the CR; these are compared with the model only (no specification applies)
 ODD_BODIES = [b"!>  &> hide\nr", b"!> \xff\nr", b"!> a\rb hide\nr", b"!> hide \xc3\nr"]
 MARK = xl(xn(3))
+GET, HEAD, POST, PUT, DELETE = 0, 1, 2, 3, 4
 
 
-def edit(kind, code, prio, key=b"", payload=MARK, body=b""):
-    return xl(xn(kind), xn(code), xz(prio), xb(key), payload, xb(body))
+def edit(kind, code, prio, key=b"", payload=MARK, body=b"", pref=0):
+    return xl(xn(kind), xn(code), xz(prio), xb(key), payload, xb(body), xn(pref))
 
 
-def order_case(edits, paths, kind, spec=True):
-    return Case("order.run", xl(xlist(edits), xlist([xb(p) for p in paths])), "order.spec" if spec else None, {"kind": kind})
+def prime_pl(frm, to):
+    return xl(xn(0), xb(frm), xb(to))
 
 
-def rand_edit(rng, prios, kinds=(0, 0, 1, 1, 2, 3, 3, 4, 4, 5, 5, 6, 6, 7)):
+def prep_pl(prefix, body, pref=0):
+    return xl(xn(1), xb(prefix), xb(body), xn(pref))
+
+
+def req(target, method=GET, rng_=None):
+    return xl(xn(method), xb(target), xl() if rng_ is None else xl(xn(rng_[0]), xn(rng_[1])))
+
+
+def order_case(edits, reqs, kind, cache=False, files=None, spec=True):
+    reqs = [req(r) if isinstance(r, bytes) else r for r in reqs]
+    opts = xl(xn(1 if cache else 0), xl() if files is None else xl(xlist([xl(xb(p), xb(c)) for p, c in files])))
+    return Case("order.run", xl(xlist(edits), xlist(reqs), opts), "order.spec" if spec else None, {"kind": kind})
+
+
+def rand_body(rng):
+    return rng.choice(PBODIES) if rng.random() < 0.7 else grammar_line(rng) + rng.choice(BODIES)
+
+
+def rand_edit(rng, prios, ov, kinds=(0, 0, 1, 1, 2, 3, 3, 4, 4, 5, 5, 6, 6, 7), prefs=(0,)):
+    """ov: the one override URI of the scenario (which of two override URIs wins is not fixed by the property: not generated)"""
     kind = rng.choice(kinds)
     code = rng.choice([0, 0, 0, 1, 1, 2]) if kind < 5 else rng.choice([0, 0, 0, 2])
     prio = rng.choice(prios)
-    body = rng.choice(PBODIES) if rng.random() < 0.7 else grammar_line(rng) + rng.choice(BODIES)
     if kind == 0:
-        return edit(0, code, prio, payload=xl(xn(0), xb(rng.choice(PATHS)), xb(rng.choice(PATHS + OVERRIDES))))
+        return edit(0, code, prio, payload=prime_pl(rng.choice(PATHS), rng.choice(PATHS + [ov])))
     if kind == 1:
-        return edit(1, code, prio, payload=xl(xn(1), xb(rng.choice(PREFIXES)), xb(body)))
+        return edit(1, code, prio, payload=prep_pl(rng.choice(PREFIXES), rand_body(rng), rng.choice(prefs)))
     if kind == 2:
         return edit(2, code, prio, payload=xl(xn(2), xb(rng.choice(PREFIXES))))
     if kind in (3, 4):
         return edit(kind, code, prio)
     if kind == 5:
-        return edit(5, code, 0, key=rng.choice(PATHS + OVERRIDES), body=body)
+        return edit(5, code, 0, key=rng.choice(PATHS + [ov]), body=rand_body(rng), pref=rng.choice(prefs))
     if kind == 6:
         return edit(6, code, 0, key=rng.choice(INTERNAL))
     return edit(7, code, 0, key=rng.choice(FILE_EXTS))
 
 
+def rand_req(rng, paths=PATHS, plain=0.5):
+    """a request of any shape: method, query, unsafe path, range (satisfiable, beyond the body, inverted)"""
+    if rng.random() < plain:
+        return req(rng.choice(paths))
+    target = rng.choice(UNSAFE) if rng.random() < 0.12 else rng.choice(paths) + rng.choice(QUERIES)
+    method = rng.choice([GET, GET, GET, HEAD, HEAD, POST, PUT, DELETE])
+    r = rng.random()
+    rg = None if r < 0.6 else rng.choice([(0, 0), (0, 3), (1, 2), (2, 100), (4, 4), (3, 1), (9, 1), (50, 60), (1000, 2000)])
+    return req(target, method, rg)
+
+
+def rand_files(rng):
+    return [(p, rand_body(rng)) for p in rng.sample(FILE_PATHS, rng.randrange(1, 5))]
+
+
 def order_corpus():
     cases = []
     # primes: the later one sees the rewrite of the earlier one; an override URI selects the path-bound Prepare
-    e = [edit(0, 0, 5, payload=xl(xn(0), xb(b"/a"), xb(b"/b.html"))), edit(0, 0, 3, payload=xl(xn(0), xb(b"/b.html"), xb(b"/c.txt"))),
-         edit(0, 1, 5, payload=xl(xn(0), xb(b"/c.txt"), xb(b"/./ov1"))),
+    e = [edit(0, 0, 5, payload=prime_pl(b"/a", b"/b.html")), edit(0, 0, 3, payload=prime_pl(b"/b.html", b"/c.txt")),
+         edit(0, 1, 5, payload=prime_pl(b"/c.txt", b"/./ov1")),
          edit(5, 0, 0, key=b"/./ov1", body=b"!> tmpl x y &> hide\r\nBODY"), edit(5, 0, 0, key=b"/c.txt", body=b"plain"),
-         edit(1, 0, 1, payload=xl(xn(1), xb(b"/"), xb(b"!> hide\nfn1"))), edit(1, 0, 7, payload=xl(xn(1), xb(b"/zz"), xb(b"fn7"))),
+         edit(1, 0, 1, payload=prep_pl(b"/", b"!> hide\nfn1")), edit(1, 0, 7, payload=prep_pl(b"/zz", b"fn7")),
          edit(2, 0, 2, payload=xl(xn(2), xb(b"/"))), edit(2, 0, 9, payload=xl(xn(2), xb(b"/c"))), edit(7, 0, 0, key=b"html"), edit(7, 0, 0, key=b"txt"),
          edit(6, 0, 0, key=b"tmpl"), edit(6, 0, 0, key=b"hide"),
          edit(3, 0, 1), edit(3, 0, 10), edit(3, 1, 10), edit(4, 0, -1), edit(4, 0, 4), edit(4, 2, 4), edit(4, 0, 6)]
     cases.append(order_case(e, [b"/a", b"/b.html", b"/zz", b"/q.html", b"/c.txt"], "corpus"))
     # the three repaired defects, through real requests
     for k in range(5):
-        pl = [xl(xn(0), xb(b"/a"), xb(b"/zz")), xl(xn(1), xb(b"/"), xb(b"b")), xl(xn(2), xb(b"/")), MARK, MARK][k]
+        pl = [prime_pl(b"/a", b"/zz"), prep_pl(b"/", b"b"), xl(xn(2), xb(b"/")), MARK, MARK][k]
         cases.append(order_case([edit(k, 0, 10, payload=pl), edit(k, 0, 5, payload=pl), edit(k, 0, 1, payload=pl), edit(k, 2, 10), edit(k, 2, 1),
-                                 edit(1, 0, 0, payload=xl(xn(1), xb(b"/"), xb(b"x")))], [b"/a"], "corpus-remove"))
+                                 edit(1, 0, 0, payload=prep_pl(b"/", b"x"))], [b"/a"], "corpus-remove"))
     cases.append(order_case([edit(5, 0, 0, key=b"/a", body=b"!> x\r\n"), edit(5, 0, 0, key=b"/zz", body=b"!> hide y\r\nbody"), edit(6, 0, 0, key=b"hide")],
                             [b"/a", b"/zz"], "corpus-crlf"))
     cases.append(order_case([edit(2, 0, 1, payload=xl(xn(2), xb(b"/"))), edit(7, 0, 0, key=b"html"), edit(5, 0, 0, key=b"/b.html", body=b"x")],
                             [b"/b.html", b"/a"], "corpus-empty-args"))
+    # Package and Post once per RESPONSE, not once per cache entry: the same cacheable page several times, cache on
+    pp = [edit(3, 0, 2), edit(3, 0, 7), edit(4, 0, 1), edit(4, 1, 1), edit(6, 0, 0, key=b"hide")]
+    cases.append(order_case(pp + [edit(5, 0, 0, key=b"/a", body=b"!> hide 1 2\nBODY", pref=1)],
+                            [b"/a", b"/a", req(b"/a", HEAD), req(b"/a", GET, (1, 2)), req(b"/a", POST), b"/a", b"/nope", b"/nope"], "corpus-cache", cache=True))
+    cases.append(order_case(pp + [edit(1, 0, 3, payload=prep_pl(b"/", b"!> hide\nq", 2))],
+                            [b"/a?x=1", b"/a?x=1", b"/a?x=2", b"/a", b"/a?x=2", b"/a"], "corpus-cache", cache=True))
+    # every request shape reaches Package and Post: HEAD, other methods, unsafe path, inverted / unsatisfiable / satisfiable range
+    shapes = [req(b"/a", HEAD), req(b"/a", POST), req(b"/a", DELETE), req(b"/a/../a"), req(b"//a"), req(b"/a", GET, (3, 1)), req(b"/a", GET, (100, 200)),
+              req(b"/a", GET, (0, 1)), req(b"/a", HEAD, (100, 200)), req(b"/nope", HEAD), req(b"/nope", GET, (0, 1)), req(b"/a?x=1")]
+    for cache in (False, True):
+        cases.append(order_case(pp + [edit(5, 0, 0, key=b"/a", body=b"0123456789", pref=1)], shapes, "corpus-shapes", cache=cache))
+    # a streamed answer (FatResponse::with_future): Present on the body before the stream, no range, never cached, the Post extensions after the stream
+    for cache in (False, True):
+        cases.append(order_case(pp + [edit(5, 0, 0, key=b"/s", body=b"!> hide 1\nS", pref=3), edit(1, 0, 1, payload=prep_pl(b"/t", b"", 3))],
+                                [b"/s", b"/s", req(b"/s", HEAD), req(b"/s", POST), req(b"/s", GET, (1, 2)), req(b"/s", GET, (5, 2)), b"/t", req(b"/t", HEAD)],
+                                "corpus-stream", cache=cache))
+    # files of the public directory: their first line is read like a Prepare body; a file extension is taken after the last dot only
+    files = [(b"/f.html", b"!> hide a b c &> tmpl\nFILE"), (b"/.hid", b"!> hide\nh"), (b"/zz", b"!> hide\nz"), (b"/x.y.md", b"plain")]
+    fe = pp + [edit(6, 0, 0, key=b"tmpl")] + [edit(7, 0, 0, key=k) for k in (b"html", b"hid", b"zz", b"y", b"md")]
+    for cache in (False, True):
+        cases.append(order_case(fe, [b"/f.html", b"/f.html", req(b"/f.html", HEAD), req(b"/f.html", POST), b"/.hid", b"/zz", b"/x.y.md", b"/none.html",
+                                     req(b"/f.html", GET, (1, 2))], "corpus-files", cache=cache, files=files))
+    # the closure that is kept: an equal key / an equal priority replaces (marks), remove then insert again
+    cases.append(order_case([edit(6, 0, 0, key=b"x"), edit(6, 0, 0, key=b"x"), edit(7, 0, 0, key=b"html"), edit(7, 0, 0, key=b"html"),
+                             edit(5, 0, 0, key=b"/b.html", body=b"one"), edit(5, 0, 0, key=b"/b.html", body=b"!> x\ntwo"),
+                             edit(3, 0, 1), edit(3, 0, 1), edit(4, 0, 1), edit(4, 0, 1), edit(0, 0, 1, payload=prime_pl(b"/q", b"/r")),
+                             edit(0, 0, 1, payload=prime_pl(b"/s", b"/t")), edit(2, 0, 1, payload=xl(xn(2), xb(b"/"))), edit(2, 0, 1, payload=xl(xn(2), xb(b"/b")))],
+                            [b"/b.html"], "corpus-replace"))
+    cases.append(order_case([edit(6, 0, 0, key=b"x"), edit(6, 2, 0, key=b"x"), edit(6, 0, 0, key=b"x"), edit(5, 0, 0, key=b"/a", body=b"!> x\n"),
+                             edit(5, 2, 0, key=b"/a"), edit(5, 0, 0, key=b"/a", body=b"!> x 2\n")], [b"/a"], "corpus-replace"))
+    # the path-bound Prepare is looked up by the path: a query does not matter
+    cases.append(order_case([edit(5, 0, 0, key=b"/a", body=b"single"), edit(1, 0, 1, payload=prep_pl(b"/", b"fn"))], [b"/a?x=1", b"/a", b"/a?", b"/b?x=/a"], "corpus-query"))
     return cases
 
 
 def order_cases(rng, tier):
     cases = order_corpus()
     small = [-1, 0, 1, 2]
-    for _ in range(700 if tier == "quick" else 9000):
+    q = tier == "quick"
+    for _ in range(500 if q else 8000):
         n = rng.randrange(1, 15)
+        ov = rng.choice(OVERRIDES)
         prios = rng.choice([small, small, small, [I32_MIN, I32_MIN + 1, 0], [16777216, 16777215, 128, 10, -100, -1327]])
-        edits = [rand_edit(rng, prios) for _ in range(n)]
-        paths = [rng.choice(PATHS) for _ in range(rng.randrange(1, 4))]
-        cases.append(order_case(edits, paths, "order-random"))
+        cache = rng.random() < 0.4
+        files = rand_files(rng) if rng.random() < 0.3 else None
+        edits = [rand_edit(rng, prios, ov, prefs=(0, 1, 1, 2, 3) if cache else (0, 0, 0, 3)) for _ in range(n)]
+        paths = rng.sample(PATHS, 2) if cache else PATHS
+        reqs = [rand_req(rng, paths) for _ in range(rng.randrange(1, 6 if cache else 4))]
+        cases.append(order_case(edits, reqs, "order-random", cache=cache, files=files))
     # one kind at a time, dense: many edits on one vector, then one request
-    for _ in range(150 if tier == "quick" else 3000):
+    for _ in range(150 if q else 3000):
         kind = rng.randrange(5)
-        edits = [rand_edit(rng, small, kinds=(kind,)) for _ in range(rng.randrange(2, 10))]
+        edits = [rand_edit(rng, small, b"/./ov1", kinds=(kind,)) for _ in range(rng.randrange(2, 10))]
         edits.append(edit(5, 0, 0, key=b"/a", body=rng.choice(PBODIES)))
         edits.append(edit(6, 0, 0, key=rng.choice(INTERNAL)))
         cases.append(order_case(edits, [rng.choice([b"/a", b"/b.html", b"/zz"])], "order-one-kind"))
     # targeted: an override URI selecting a path-bound Prepare; several matching predicate-bound Prepares; several registered
     # extensions on the '!> ' line with arguments; several matching present_fn; several Package / Post
-    for _ in range(240 if tier == "quick" else 5000):
+    for _ in range(240 if q else 5000):
         path = rng.choice(PATHS)
         ov = rng.choice(OVERRIDES)
         names = rng.sample(INTERNAL, rng.randrange(2, 5))
-        line = b"!> " + b" &> ".join(n + b"".join(b" " + token(rng) for _ in range(rng.randrange(0, 3))) for n in names) + rng.choice([b"\n", b"\r\n", b" &>\n"]) + b"B"
+        line = b"!> " + b" &> ".join(n + b"".join(b" " + token(rng) for _ in range(rng.randrange(0, 4))) for n in names) + rng.choice([b"\n", b"\r\n", b" &>\n"]) + b"B"
         edits = []
         if rng.random() < 0.6:
-            edits.append(edit(0, rng.choice([0, 1]), rng.choice(small), payload=xl(xn(0), xb(path), xb(ov))))
+            edits.append(edit(0, rng.choice([0, 1]), rng.choice(small), payload=prime_pl(path, ov)))
             edits.append(edit(5, 0, 0, key=ov, body=line))
             if rng.random() < 0.5:
                 edits.append(edit(5, 0, 0, key=path, body=b"by-path"))
         for _ in range(rng.randrange(2, 5)):
-            edits.append(edit(1, rng.choice([0, 1]), rng.choice(small), payload=xl(xn(1), xb(rng.choice([b"/", b"/", path])), xb(rng.choice([line, b"fn", b"!> hide x\nfn"])))))
+            edits.append(edit(1, rng.choice([0, 1]), rng.choice(small), payload=prep_pl(rng.choice([b"/", b"/", path]), rng.choice([line, b"fn", b"!> hide x\nfn"]))))
         for _ in range(rng.randrange(0, 3)):
             edits.append(edit(2, rng.choice([0, 1]), rng.choice(small), payload=xl(xn(2), xb(rng.choice([b"/", path])))))
         for n in rng.sample(INTERNAL, rng.randrange(2, 6)):
@@ -350,7 +480,65 @@ def order_cases(rng, tier):
             for _ in range(rng.randrange(1, 4)):
                 edits.append(edit(k, rng.choice([0, 1, 1]), rng.choice(small)))
         rng.shuffle(edits)
-        cases.append(order_case(edits, [path], "order-targeted"))
+        cases.append(order_case(edits, [path + rng.choice(QUERIES)], "order-targeted"))
+    # response cache on: the same (cacheable) pages several times in every request shape; Package and Post registered
+    for _ in range(260 if q else 5000):
+        pages = rng.sample(PATHS, 2)
+        edits = []
+        for pg in pages:
+            if rng.random() < 0.7:
+                edits.append(edit(5, 0, 0, key=pg, body=rand_body(rng), pref=rng.choice([0, 1, 1, 1, 2, 3])))
+        if rng.random() < 0.5:
+            edits.append(edit(1, rng.choice([0, 1]), rng.choice(small), payload=prep_pl(rng.choice([b"/", pages[0]]), rand_body(rng), rng.choice([0, 1, 2, 3]))))
+        if rng.random() < 0.3:
+            edits.append(edit(0, 0, rng.choice(small), payload=prime_pl(pages[0], rng.choice([pages[1], b"/./ov1"]))))
+            edits.append(edit(5, 0, 0, key=b"/./ov1", body=rand_body(rng), pref=rng.choice([1, 2])))
+        for k in (3, 4):
+            for _ in range(rng.randrange(1, 4)):
+                edits.append(edit(k, rng.choice([0, 1, 1]), rng.choice(small)))
+        for n in rng.sample(INTERNAL, rng.randrange(1, 4)):
+            edits.append(edit(6, 0, 0, key=n))
+        if rng.random() < 0.4:
+            edits.append(edit(2, 0, rng.choice(small), payload=xl(xn(2), xb(b"/"))))
+        rng.shuffle(edits)
+        files = rand_files(rng) if rng.random() < 0.3 else None
+        reqs = [rand_req(rng, pages, plain=0.45) for _ in range(rng.randrange(3, 8))]
+        cases.append(order_case(edits, reqs, "order-cache", cache=True, files=files))
+    # files of the public directory with '!> ' first lines, file-extension Present extensions (also for "/.hid" and "/zz": none)
+    for _ in range(160 if q else 3000):
+        files = rand_files(rng)
+        edits = [edit(7, rng.choice([0, 0, 0, 2]), 0, key=rng.choice(FILE_EXTS)) for _ in range(rng.randrange(1, 5))]
+        edits += [edit(6, 0, 0, key=n) for n in rng.sample(INTERNAL, rng.randrange(1, 5))]
+        edits += [edit(k, rng.choice([0, 1]), rng.choice(small)) for k in (3, 4) for _ in range(rng.randrange(0, 3))]
+        if rng.random() < 0.3:
+            edits.append(edit(5, 0, 0, key=rng.choice(FILE_PATHS), body=b"prepared", pref=1))
+        if rng.random() < 0.3:
+            edits.append(edit(2, 0, rng.choice(small), payload=xl(xn(2), xb(rng.choice(PREFIXES)))))
+        rng.shuffle(edits)
+        reqs = [rand_req(rng, FILE_PATHS + [b"/none.html", b"/"], plain=0.6) for _ in range(rng.randrange(1, 6))]
+        cases.append(order_case(edits, reqs, "order-files", cache=rng.random() < 0.5, files=files))
+    # which closure is kept: repeated keys / priorities (the markers log the index of the edit that registered them)
+    for _ in range(120 if q else 2500):
+        key, ext, name = rng.choice(PATHS), rng.choice(FILE_EXTS), rng.choice(INTERNAL)
+        edits = []
+        for _ in range(rng.randrange(3, 10)):
+            k = rng.choice([0, 1, 2, 3, 4, 5, 5, 6, 6, 7, 7])
+            code = rng.choice([0, 0, 0, 1, 2]) if k < 5 else rng.choice([0, 0, 0, 2])
+            if k == 0:
+                edits.append(edit(0, code, rng.choice([0, 1]), payload=prime_pl(rng.choice([b"/q", key]), rng.choice([b"/r", key]))))
+            elif k == 1:
+                edits.append(edit(1, code, rng.choice([0, 1]), payload=prep_pl(b"/", b"!> " + name + b" p\nfn")))
+            elif k == 2:
+                edits.append(edit(2, code, rng.choice([0, 1]), payload=xl(xn(2), xb(b"/"))))
+            elif k in (3, 4):
+                edits.append(edit(k, code, rng.choice([0, 1])))
+            elif k == 5:
+                edits.append(edit(5, code, 0, key=key, body=b"!> " + name + b" s\nsingle"))
+            elif k == 6:
+                edits.append(edit(6, code, 0, key=name))
+            else:
+                edits.append(edit(7, code, 0, key=ext))
+        cases.append(order_case(edits, [key, b"/p." + ext], "order-replace"))
     for body in ODD_BODIES:
         cases.append(order_case([edit(5, 0, 0, key=b"/a", body=body), edit(6, 0, 0, key=b"hide"), edit(3, 0, 1)], [b"/a"], "order-outside-grammar", spec=False))
     return cases
@@ -358,6 +546,74 @@ def order_cases(rng, tier):
 
 def generate(rng, tier):
     return registry_cases(rng, tier) + bsearch_cases(rng, tier) + present_cases(rng, tier) + order_cases(rng, tier)
+
+
+# ------------------------------------------------------------------------------------------
+# comparison: exact, except where the property (and the std documentation) leave the result open
+# ------------------------------------------------------------------------------------------
+def is_trouble(c, i):
+    """a reply that could not be obtained (bind/connect failure, read or join timeout under load, temp dir): not an outcome of the code"""
+    return "(L (N 93) " in i or re.match(r"\(L \(N 96\) \((N|B) ", i) is not None
+
+
+def _partitioned(c):
+    """std: the result of binary_search_by is unspecified unless the slice is partitioned by the comparator (Less*, Equal?, Greater*; with
+    several Equal any of them may be returned).  The registry only searches strictly descending vectors with |probe| id.cmp(probe)."""
+    orient, t, ks = c.x[1][0][1], c.x[1][1], [k for k in c.x[1][2][1]]
+    t = t[1][1][1] * (-1 if t[1][0][1] else 1)
+    vals = [k[1][1][1] * (-1 if k[1][0][1] else 1) for k in ks]
+    sign = [(t > v) - (t < v) if orient == 0 else (v > t) - (v < t) for v in vals]    # cmp of the closure: -1 Less, 0 Equal, 1 Greater
+    return sign == sorted(sign) and sign.count(0) <= 1
+
+
+def _bsearch_shape(c, i):
+    m = re.fullmatch(r"\(L \(N ([01])\) \(N (\d+)\)\)", i)
+    n = len(c.x[1][2][1])
+    return m is not None and (int(m.group(2)) < n if m.group(1) == "0" else int(m.group(2)) <= n)
+
+
+_ERR_STATUS = re.compile(r"\(L \(N 0\) \(L \(N [45]\d\d\) \(B \)\)\)")
+
+
+def _canon_order(t):
+    """the status of an error response is not part of the property (404 for a missing page, 405, 400, 416 ...): one class"""
+    return _ERR_STATUS.sub("(L (N 0) (L (N 400) (B )))", t)
+
+
+def _canon_reg(c, i, m):
+    """`no_override` when every priority down to i32::MIN is taken: the property does not say what happens; today a panic.  A refusal that
+    leaves the vector as it was is the same class."""
+    if i == m or "(L (N 2))" not in m:
+        return i
+    try:
+        xi, xm = kv.xparse(i), kv.xparse(m)
+        vi, vm = xi[1][0][1], xm[1][0][1]
+        if len(vi) != len(vm):
+            return i
+        init = c.x[1][0]
+        cur = {k: (init[1][0][1][k] if init[0] == "L" else ("L", [])) for k in range(5)}
+        reqs = c.x[1][1][1]
+        for n, (a, b_) in enumerate(zip(vi, vm)):
+            kind = reqs[n][1][0][1]
+            if kind >= 5:
+                continue
+            if b_ == ("L", [("N", 2)]) and a[1][0] == ("N", 0) and a[1][1] == cur[kind]:
+                vi[n] = b_
+            elif a[1][0] == ("N", 0):
+                cur[kind] = a[1][1]
+        return kv.xtext(xi)
+    except Exception:
+        return i
+
+
+def compare(c, i, m):
+    if c.comp == "std.bsearch":
+        return i == m if _partitioned(c) else _bsearch_shape(c, i)
+    if c.comp == "order.run":
+        return _canon_order(i) == _canon_order(m)
+    if c.comp.startswith("reg.ops"):
+        return _canon_reg(c, i, m) == m
+    return i == m
 
 
 def spec_ok(c, i, s):
@@ -372,7 +628,136 @@ def spec_ok(c, i, s):
         parsed = opt[0][1]
         ds, body, data = parsed[1][1], parsed[2][1], c.x[1]
         return ds <= len(data) and body == data[ds:]
-    return i == s
+    return compare(c, i, s)
+
+
+# ------------------------------------------------------------------------------------------
+# model-free oracles on the implementation's output alone (a direct reading of the property text)
+# ------------------------------------------------------------------------------------------
+def _z(x):
+    return x[1][1][1] * (-1 if x[1][0][1] else 1)
+
+
+def _py_registry(edits):
+    """the reference of the property in Python: per vector a dict priority -> mark, per map a dict key -> mark"""
+    lists, maps = [dict() for _ in range(5)], [dict() for _ in range(3)]
+    for idx, e in enumerate(edits):
+        f = e[1]
+        kind, code, prio, key = f[0][1], f[1][1], _z(f[2]), f[3][1]
+        if kind < 5:
+            d = lists[kind]
+            if code == 2:
+                d.pop(prio, None)
+            elif code == 0:
+                d[prio] = idx
+            else:
+                p = prio
+                while p in d and p > I32_MIN:
+                    p -= 1
+                if p not in d:
+                    d[p] = idx
+        elif code == 2:
+            maps[kind - 5].pop(key, None)
+        else:
+            maps[kind - 5][key] = idx
+    return lists, maps
+
+
+def _reg_oracle(c, i):
+    """the registry clauses read directly on the implementation's output: after every step the edited vector is strictly descending, and it is
+    the vector before with exactly the change the property names (add: that priority bound to the new name; no_override: the greatest free
+    priority at or below; remove: that priority gone); the final listing of all eight lists is what the steps add up to"""
+    try:
+        x = kv.xparse(i)
+        views, final = x[1][0][1], x[1][1]
+        init = c.x[1][0]
+        if init[0] == "L":
+            lists = [{_z(e[1][0]): e[1][1][1] for e in l[1]} for l in init[1][0][1]]
+            maps = [set(k[1] for k in m[1]) for m in init[1][1][1]]
+        elif init[1] == 0:
+            lists, maps = [dict() for _ in range(5)], [set() for _ in range(3)]
+        else:
+            return None
+        reqs = c.x[1][1][1]
+        if len(views) != len(reqs):
+            return None
+        for n, (r, v) in enumerate(zip(reqs, views)):
+            kind, code, prio, name = r[1][0][1], r[1][1][1], _z(r[1][2]), r[1][3][1]
+            if kind < 5:
+                d = dict(lists[kind])
+                refused = False
+                if code == 2:
+                    d.pop(prio, None)
+                elif code == 0:
+                    d[prio] = name
+                else:
+                    p_ = prio
+                    while p_ in d and p_ > I32_MIN:
+                        p_ -= 1
+                    if p_ in d:
+                        refused = True
+                    else:
+                        d[p_] = name
+                if v == ("L", [("N", 2)]):
+                    if not refused:
+                        return "step %d: panic although a free priority exists" % n
+                    continue
+                got = [(_z(e[1][0]), e[1][1][1]) for e in v[1][1][1]]
+                if any(a[0] <= b[0] for a, b in zip(got, got[1:])):
+                    return "step %d: the listing is not strictly descending: %s" % (n, got)
+                if got != sorted(d.items(), reverse=True):
+                    return "step %d: listing %s, the reference map has %s" % (n, got, sorted(d.items(), reverse=True))
+                lists[kind] = d
+            else:
+                m = maps[kind - 5]
+                if code == 2:
+                    m.discard(name)
+                else:
+                    m.add(name)
+                if [k[1] for k in v[1][1][1]] != sorted(m):
+                    return "step %d: keys %s, the reference set has %s" % (n, [k[1] for k in v[1][1][1]], sorted(m))
+        gl = [[(_z(e[1][0]), e[1][1][1]) for e in l[1]] for l in final[1][0][1]]
+        gm = [[k[1] for k in m[1]] for m in final[1][1][1]]
+        if gl != [sorted(d.items(), reverse=True) for d in lists] or gm != [sorted(m) for m in maps]:
+            return "final listing differs from what the steps add up to (an edit touched another list?)"
+    except Exception:   # an output of another shape is the differ's business
+        return None
+    return None
+
+
+def extra_oracle(c, i):
+    if c.comp.startswith("reg.ops"):
+        return _reg_oracle(c, i)
+    if c.comp != "order.run":
+        return None
+    try:
+        lists, maps = _py_registry(c.x[1][0][1])
+        want = {k: [(p, lists[k][p]) for p in sorted(lists[k], reverse=True)] for k in (0, 3, 4)}
+        for n, reply in enumerate(kv.xparse(i)[1]):
+            if reply[1][0] != ("L", [("N", 0), reply[1][0][1][1]]) if reply[1][0][0] == "L" and len(reply[1][0][1]) == 2 else True:
+                continue        # no answer: the differ decides
+            evs = reply[1][1][1]
+            tags = [e[1][0][1] for e in evs]
+            got = {k: [(_z(e[1][1]), e[1][2][1]) for e in evs if e[1][0][1] == t] for k, t in ((0, 0), (3, 6), (4, 7))}
+            for k, what in ((0, "Prime"), (3, "Package"), (4, "Post")):
+                if got[k] != want[k]:
+                    return "request %d: the %s extensions that ran (priority, mark) %s are not all registered ones, each once, highest priority first %s" % (n, what, got[k], want[k])
+            stage = [0 if t == 0 else 1 if t in (1, 2) else 2 if t in (3, 4, 5) else 3 if t == 6 else 4 for t in tags]
+            if stage != sorted(stage):
+                return "request %d: stages out of order: %s" % (n, tags)
+            if sum(1 for t in tags if t in (1, 2)) > 1:
+                return "request %d: more than one Prepare extension ran" % n
+            for e in evs:
+                t = e[1][0][1]
+                if t in (1, 4, 5):
+                    m = maps[{1: 0, 5: 1, 4: 2}[t]]
+                    if m.get(e[1][1][1]) != e[1][2][1]:
+                        return "request %d: the closure run for key %r is not the one registered last (mark %s, expected %s)" % (n, e[1][1][1], e[1][2][1], m.get(e[1][1][1]))
+                if t == 5 and [a[1] for a in e[1][4][1]] != [a[1] for a in e[1][3][1]][::-1]:
+                    return "request %d: iter().rev() is not the reverse of iter()" % n
+    except Exception:
+        return None
+    return None
 
 
 def signature(c, m):
@@ -390,9 +775,28 @@ def signature(c, m):
         return None
     if c.comp == "present.line":
         return "words=%d" % len(c.x[1][0][1]) if c.x[1][0][1] else None
+    if c.comp == "present.sched":
+        return "sched" if c.x[1][1][1] and m.startswith("(L (N 0) (L (L") else None
     if c.comp == "order.run":
-        return "events=%d" % m.count("(L (N ") if "(N 200)" in m else None
+        return "events=%d" % m.count("(L (N ") if "(N 200)" in m or "(N 206)" in m else None
     return "x"
+
+
+def extra_coverage(cases, impl, model, spec):
+    tier = "thorough" if any(c.meta.get("kind", "").startswith("exhaustive<=7") or c.meta.get("kind", "").startswith("exhaustive<=6") for c in cases) else "quick"
+    hits = sum(1 for c in cases if c.comp == "order.run" and c.id in impl for _ in re.finditer(r"\(L \(L \(N 0\) \(L \(N 20[06]\)", impl[c.id]))
+    nreq = sum(len(c.x[1][1][1]) for c in cases if c.comp == "order.run")
+    cached = sum(1 for c in cases if c.comp == "order.run" and c.x[1][2][1][0][1] == 1)
+    return {
+        "registry_exhaustive_bounds": ["every sequence of add / add no_override / remove up to length %d over %d priorities" % (b_, len(ps))
+                                       for b_, ps in EXHAUSTIVE[tier]]
+        + (["%.0f %% of the length-8 sequences over 2 priorities" % (100 * SAMPLED_8[tier])] if SAMPLED_8[tier] else [])
+        + ["sampled sequences of length 4..8 over 6 priorities and random histories up to length 60; the theorem covers every length and every priority"],
+        "run_order_requests": nreq,
+        "run_order_scenarios_with_response_cache": cached,
+        "run_order_2xx_replies": hits,
+        "extensions_new_listing_read_from_harness": new_listing() is not None,
+    }
 
 
 def directed(rng, mismatches):
@@ -408,103 +812,175 @@ def directed(rng, mismatches):
     for _ in range(20000):
         cases.append(Case(PARSE, xb(grammar_line(rng) + rng.choice(BODIES)), "present.spec", {"kind": "directed"}))
         cases.append(line_case(words(rng), rng.random() < 0.5, rng.choice(BODIES), "directed"))
+    for _ in range(5000):
+        cases.append(Case("present.parse_rev", xb(grammar_line(rng) + rng.choice(BODIES)), "present.rev_spec", {"kind": "directed"}))
+        cases.append(sched_case(grammar_line(rng) + rng.choice(BODIES), [rng.randrange(2) for _ in range(rng.randrange(0, 9))], "directed"))
     cases.append(Case("present.empty_args", xl(), "present.empty_args", {"kind": "directed"}))
     cases += order_corpus()
     for _ in range(1500):
-        edits = [rand_edit(rng, [-1, 0, 1, 2]) for _ in range(rng.randrange(1, 10))]
-        cases.append(order_case(edits, [rng.choice(PATHS) for _ in range(2)], "directed"))
+        cache = rng.random() < 0.5
+        edits = [rand_edit(rng, [-1, 0, 1, 2], b"/./ov1", prefs=(0, 1, 2, 3) if cache else (0, 3)) for _ in range(rng.randrange(1, 10))]
+        cases.append(order_case(edits, [rand_req(rng, PATHS[:3]) for _ in range(3)], "directed", cache=cache))
     return cases
 
 
 THEOREMS = [
-    ("binary_search_total",
+    ('binary_search_total',
      'forall (T : Type) (f : T -> comparison) (l : list T), exists r, binary_search_by f l = Some r'),
-    ("binary_search_ok_iff",
+    ('binary_search_ok_iff',
      'forall (T : Type) (f : T -> comparison) (l : list T) (i : nat), partitioned f l -> (binary_search_by f l = Some (BOk i) <-> exists x, nth_error l i = Some x /\\ f x = Eq)'),
-    ("binary_search_err_iff",
+    ('binary_search_err_iff',
      'forall (T : Type) (f : T -> comparison) (l : list T) (i : nat), partitioned f l -> (binary_search_by f l = Some (BErr i) <-> insertion_point f l i)'),
-    ("binary_search_insertion_point_unique",
+    ('binary_search_insertion_point_unique',
      'forall (T : Type) (f : T -> comparison) (l : list T) (i j : nat), insertion_point f l i -> insertion_point f l j -> i = j'),
-    ("registry_refines_map",
+    ('registry_refines_map',
      'forall (A : Type) (ops : list (op A)) (l : list (Z * A)), desc l -> run_model l ops = run_ref l ops'),
-    ("registry_refines_map_from_empty",
+    ('registry_refines_map_from_empty',
      'forall (A : Type) (ops : list (op A)), run_model [] ops = run_ref [] ops'),
-    ("reference_descending",
+    ('reference_descending',
      "forall (A : Type) (ops : list (op A)) (l : list (Z * A)), desc l -> Forall (fun r => match r with Ok l' => desc l' | _ => True end) (run_ref l ops)"),
-    ("reference_add_is_map_update",
+    ('reference_add_is_map_update',
      'forall (A : Type) (l : list (Z * A)) (p : Z) (a : A) (q : Z), desc l -> ref_get (ref_add l p a) q = if (q =? p)%Z then Some a else ref_get l q'),
-    ("reference_remove_is_map_remove",
+    ('reference_remove_is_map_remove',
      'forall (A : Type) (l : list (Z * A)) (p q : Z), ref_get (ref_remove l p) q = if (q =? p)%Z then None else ref_get l q'),
-    ("no_override_takes_greatest_free",
+    ('no_override_takes_greatest_free',
      "forall (A : Type) (l : list (Z * A)) (p : Z), desc l -> match ref_free_below l p with | Some p' => (p' <= p)%Z /\\ ref_mem l p' = false /\\ (forall q, (p' < q <= p)%Z -> ref_mem l q = true) /\\ ((i32_min <= p)%Z -> (i32_min <= p')%Z) | None => forall q, (i32_min <= q <= p)%Z -> ref_mem l q = true end"),
-    ("extensions_refine_reference",
+    ('extensions_refine_reference',
      'forall (e : extensions) (rs : list request), ext_desc e -> ext_run remove_sorted_list e rs = ext_run_ref e rs'),
-    ("extensions_new_descending",
+    ('extensions_new_descending',
      'ext_desc extensions_empty /\\ ext_desc extensions_new'),
-    ("remove_sorted_list_v0_refuted",
+    ('extensions_start_state_descending',
+     'forall (x : xval) (e : extensions), d_extensions x = Some e -> ext_desc e'),
+    ('registry_key_sets',
+     'forall (k : bytes) (m : list bytes) (q : bytes), (In q (key_insert k m) <-> q = k \\/ In q m) /\\ (In q (key_remove k m) <-> q <> k /\\ In q m)'),
+    ('registry_maps_are_maps',
+     'forall (X : Type) (m : list (bytes * X)) (k : bytes) (v : X) (q : bytes), assoc q (map_insert k v m) = (if beq k q then Some v else assoc q m) /\\ assoc q (map_remove k m) = (if beq k q then None else assoc q m)'),
+    ('remove_sorted_list_v0_refuted',
      'exists (l : list (Z * N)) (p : Z), desc l /\\ remove_sorted_list_v0 l p <> Ok (ref_remove l p)'),
-    ("present_never_panics",
+    ('present_never_panics',
      'forall data : bytes, exists r, present_parse data = Ok r /\\ match r with | Some p => (p_data_start p <= length data)%nat /\\ p_body p = skipn (p_data_start p) data | None => True end'),
-    ("present_line_spec",
+    ('present_line_spec',
      'forall (ws : list bytes) (crlf : bool) (rest : bytes), line_words_ok ws -> present_parse (render_line ws crlf ++ rest) = Ok (Some {| p_entries := group_words None (nonempty_words ws); p_data_start := length (render_line ws crlf); p_body := rest |})'),
-    ("present_v0_refuted",
+    ('present_v0_refuted',
      'present_parse_v0 (B "!> a" ++ [13; 10]) = Panic /\\ (exists p, present_parse_v0 (B "!> a" ++ [13; 10] ++ B "body") = Ok (Some p) /\\ p_body p = B "ody") /\\ empty_args_next_v0 = Panic /\\ empty_args_next = Ok None'),
-    ("prime_sequential",
+    ('args_rev_is_reverse',
+     'forall (data : bytes) (exts : list posdata) (pa : span) (l : list bytes), pa_args args_end data exts pa = Ok l -> pa_args_back data exts pa = Ok (rev l)'),
+    ('args_double_ended',
+     'forall (data : bytes) (exts : list posdata) (pa : span) (l : list bytes) (sched : list bool), pa_args args_end data exts pa = Ok l -> pa_args_drive data exts pa sched = Ok (deque_drive sched l)'),
+    ('deque_each_once',
+     'forall (sched : list bool) (l : list bytes), exists mid, l = fst (deque_drive sched l) ++ mid ++ rev (snd (deque_drive sched l)) /\\ (length l <= length sched -> mid = [])%nat'),
+    ('present_rev_never_panics',
+     'forall data : bytes, present_parse_rev data = match present_parse data with | Ok (Some p) => Ok (Some (map (fun e => (fst e, snd e, rev (snd e))) (p_entries p))) | Ok None => Ok None | Err e => Err e | Panic => Panic end'),
+    ('present_sched_never_panics',
+     'forall (sched : list bool) (data : bytes), present_parse_sched sched data = match present_parse data with | Ok (Some p) => Ok (Some (map (fun e => (fst e, snd e, deque_drive sched (snd e))) (p_entries p))) | Ok None => Ok None | Err e => Err e | Panic => Panic end'),
+    ('prime_sequential',
      'forall (l1 : list (Z * prime_ext)) (i : Z) (pr : prime_ext) (l2 : list (Z * prime_ext)) (st : bytes * option bytes), snd (resolve_prime (l1 ++ (i, pr) :: l2) st) = snd (resolve_prime l1 st) ++ EPrime i (fst (prime_state l1 st)) :: snd (resolve_prime l2 (prime_apply pr (prime_state l1 st))) /\\ length (snd (resolve_prime l1 st)) = length l1'),
-    ("prime_all_once_in_order",
+    ('prime_all_once_in_order',
      'forall (l : list (Z * prime_ext)) (st : bytes * option bytes), map event_prio (snd (resolve_prime l st)) = map (fun e => Some (fst e)) l'),
-    ("prepare_single_first",
-     'forall (single : list (bytes * handler)) (fns : list (Z * ((bytes -> bool) * handler))) (st : bytes * option bytes) (h : handler), assoc (prepare_key st) single = Some h -> resolve_prepare single fns st = (Some (h (fst st)), [EPrepareSingle (prepare_key st) (fst st)])'),
-    ("first_predicate_only",
-     'forall (single : list (bytes * handler)) (l1 : list (Z * ((bytes -> bool) * handler))) (i : Z) (pred : bytes -> bool) (h : handler) (l2 : list (Z * ((bytes -> bool) * handler))) (st : bytes * option bytes), assoc (prepare_key st) single = None -> Forall (fun e => fst (snd e) (fst st) = false) l1 -> pred (fst st) = true -> resolve_prepare single (l1 ++ (i, (pred, h)) :: l2) st = (Some (h (fst st)), [EPrepareFn i (fst st)])'),
-    ("no_matching_prepare",
-     'forall (single : list (bytes * handler)) (fns : list (Z * ((bytes -> bool) * handler))) (st : bytes * option bytes), assoc (prepare_key st) single = None -> Forall (fun e => fst (snd e) (fst st) = false) fns -> resolve_prepare single fns st = (None, [])'),
-    ("present_line_order",
-     'forall (pfns : list (Z * (bytes -> bool))) (pfile pint : list bytes) (path : bytes) (ws : list bytes) (crlf : bool) (rest : bytes), line_words_ok ws -> resolve_present present_parse pfns pfile pint path (render_line ws crlf ++ rest) = Ok (rest, map (fun x => EPresentFn (fst x)) (filter (fun x => snd x path) pfns) ++ (match path_extension path with Some e => if bmem e pfile then [EPresentFile e] else [] | None => [] end) ++ map (fun e => EPresentInternal (fst e) (snd e)) (filter (fun e => bmem (fst e) pint) (group_words None (nonempty_words ws))))'),
-    ("package_post_once",
+    ('prepare_single_first',
+     'forall (R : Type) (single : list (bytes * (bytes -> R))) (fns : list (Z * ((bytes -> bool) * (bytes -> R)))) (st : bytes * option bytes) (h : bytes -> R), assoc (prepare_key st) single = Some h -> resolve_prepare single fns st = (Some (h (fst st)), [EPrepareSingle (prepare_key st) (fst st)])'),
+    ('first_predicate_only',
+     'forall (R : Type) (single : list (bytes * (bytes -> R))) (l1 : list (Z * ((bytes -> bool) * (bytes -> R)))) (i : Z) (pred : bytes -> bool) (h : bytes -> R) (l2 : list (Z * ((bytes -> bool) * (bytes -> R)))) (st : bytes * option bytes), assoc (prepare_key st) single = None -> Forall (fun e => fst (snd e) (fst st) = false) l1 -> pred (fst st) = true -> resolve_prepare single (l1 ++ (i, (pred, h)) :: l2) st = (Some (h (fst st)), [EPrepareFn i (fst st)])'),
+    ('no_matching_prepare',
+     'forall (R : Type) (single : list (bytes * (bytes -> R))) (fns : list (Z * ((bytes -> bool) * (bytes -> R)))) (st : bytes * option bytes), assoc (prepare_key st) single = None -> Forall (fun e => fst (snd e) (fst st) = false) fns -> resolve_prepare single fns st = (None, [])'),
+    ('present_line_order',
+     'forall (pfns : list (Z * (bytes -> bool))) (pfile pint : list bytes) (uri : bytes) (ws : list bytes) (crlf : bool) (rest : bytes), line_words_ok ws -> resolve_present present_parse pfns pfile pint uri (render_line ws crlf ++ rest) = Ok (rest, map (fun x => EPresentFn (fst x)) (filter (fun x => snd x uri) pfns) ++ (match path_extension (uri_path uri) with Some e => if bmem e pfile then [EPresentFile e] else [] | None => [] end) ++ map (fun e => EPresentInternal (fst e) (snd e)) (filter (fun e => bmem (fst e) pint) (group_words None (nonempty_words ws))))'),
+    ('package_post_once',
      'forall (X : Type) (l : list (Z * X)), resolve_package l = map (fun e => EPackage (fst e)) l /\\ resolve_post l = map (fun e => EPost (fst e)) l /\\ (desc l -> NoDup (resolve_package l) /\\ NoDup (resolve_post l))'),
-    ("serve_stages",
-     'forall (b : behaviours) (path : bytes), exists status body present_tr, serve present_parse b path = (Ok (status, body), snd (resolve_prime (b_prime b) (path, None)) ++ snd (resolve_prepare (b_single b) (b_prepare_fn b) (prime_state (b_prime b) (path, None))) ++ present_tr ++ map (fun e => EPackage (fst e)) (b_package b) ++ map (fun e => EPost (fst e)) (b_post b)) /\\ Forall is_present_event present_tr'),
-    ("run_order_after_edits",
-     'forall (parse : bytes -> outcome (option parsed)) (es : list pedit) (paths : list bytes), run_scenario model_step parse es paths = run_scenario ref_step parse es paths /\\ pc_desc (pconfig_build ref_step es)'),
+    ('package_post_every_response',
+     'forall (h : hostcfg) (c : cache) (r : creq), exists status body prep pres, fst (serve present_parse h c r) = (Ok (status, body), snd (resolve_prime (b_prime (h_b h)) (q_uri r, None)) ++ prep ++ pres ++ map (fun e => EPackage (fst e)) (b_package (h_b h)) ++ map (fun e => EPost (fst e)) (b_post (h_b h))) /\\ Forall is_prepare_event prep /\\ (length prep <= 1)%nat /\\ Forall is_present_event pres'),
+    ('cache_hit_skips_prepare_present',
+     'forall (h : hostcfg) (c : cache) (r : creq) (st : bytes * option bytes) (sb : centry), fst (resolve_prime (b_prime (h_b h)) (q_uri r, None)) = st -> cache_hit h c (sanitize r) (q_method r) (key_uri st) = Some sb -> serve present_parse h c r = ((Ok (respond (q_method r) (sanitize r) 1 sb), snd (resolve_prime (b_prime (h_b h)) (q_uri r, None)) ++ map (fun e => EPackage (fst e)) (b_package (h_b h)) ++ map (fun e => EPost (fst e)) (b_post (h_b h))), c)'),
+    ('run_order_after_edits',
+     'forall (parse : bytes -> outcome (option parsed)) (es : list pedit) (o : hostopts) (rs : list creq), run_scenario model_step parse es o rs = run_scenario ref_step parse es o rs /\\ pc_desc (pconfig_build ref_step es)'),
+    ('spec_all_once_desc_is',
+     'forall (X : Type) (l : list (Z * X)) (ps : list Z), all_once_desc l ps <-> (StronglySorted (fun a c => (c < a)%Z) ps /\\ forall p, In p ps <-> ref_mem l p = true)'),
+    ('spec_stage_is',
+     'forall (X : Type) (mk : Z -> event) (l : list (Z * X)) (tr : list event), stage_spec mk l tr <-> exists ps, tr = map mk ps /\\ all_once_desc l ps'),
+    ('spec_prime_is',
+     "forall (b : behaviours) (st : bytes * option bytes) (tr : list event) (st' : bytes * option bytes), (prime_chain b st tr st' <-> match tr with | [] => st' = st | e :: tr' => exists i pr, e = EPrime i (fst st) /\\ ref_get (b_prime b) i = Some pr /\\ prime_chain b (prime_apply pr st) tr' st' end) /\\ (prime_spec b st tr st' <-> prime_chain b st tr st' /\\ exists ps, map event_prio tr = map Some ps /\\ all_once_desc (b_prime b) ps)"),
+    ('spec_prepare_is',
+     "forall (b : behaviours) (st : bytes * option bytes) (resp : option presp) (tr : list event), prepare_spec b st resp tr <-> match assoc (prepare_key st) (b_single b) with | Some h => resp = Some (h (fst st)) /\\ tr = [EPrepareSingle (prepare_key st) (fst st)] | None => (exists i pred h, ref_get (b_prepare_fn b) i = Some (pred, h) /\\ pred (fst st) = true /\\ (forall j pred' h', ref_get (b_prepare_fn b) j = Some (pred', h') -> pred' (fst st) = true -> (j <= i)%Z) /\\ resp = Some (h (fst st)) /\\ tr = [EPrepareFn i (fst st)]) \\/ ((forall j pred' h', ref_get (b_prepare_fn b) j = Some (pred', h') -> pred' (fst st) = false) /\\ resp = None /\\ tr = []) end"),
+    ('spec_present_is',
+     "forall (line : bytes -> option parsed) (b : behaviours) (uri body body' : bytes) (tr : list event), present_spec line b uri body body' tr <-> exists ps, StronglySorted (fun a c => (c < a)%Z) ps /\\ (forall p, In p ps <-> exists pred, ref_get (b_present_fn b) p = Some pred /\\ pred uri = true) /\\ tr = map EPresentFn ps ++ (match path_extension (uri_path uri) with | Some e => if bmem e (b_present_file b) then [EPresentFile e] else [] | None => [] end) ++ map (fun e => EPresentInternal (fst e) (snd e)) (filter (fun e => bmem (fst e) (b_present_internal b)) (match line body with Some p => p_entries p | None => [] end)) /\\ body' = match line body with Some p => p_body p | None => body end"),
+    ('spec_serve_is',
+     "forall (line : bytes -> option parsed) (h : hostcfg) (c : cache) (r : creq) (out : (outcome (N * bytes) * list event) * cache), serve_spec line h c r out <-> exists tr1 st pk po, prime_spec (h_b h) (q_uri r, None) tr1 st /\\ stage_spec EPackage (b_package (h_b h)) pk /\\ stage_spec EPost (b_post (h_b h)) po /\\ match cache_hit h c (sanitize r) (q_method r) (key_uri st) with | Some sb => out = ((Ok (respond (q_method r) (sanitize r) 1 sb), tr1 ++ pk ++ po), c) | None => exists status body pref tr2 body' tr3, match sanitize r with | SanOk _ => exists resp, prepare_spec (h_b h) st resp tr2 /\\ (status, body, pref) = response_of h (q_method r) (fst st) resp | SanUnsafe => (status, body, pref) = (400, [], 1) /\\ tr2 = [] | SanRange => (status, body, pref) = (416, [], 1) /\\ tr2 = [] end /\\ present_spec line (h_b h) (fst st) body body' tr3 /\\ out = ((Ok (respond (q_method r) (sanitize r) pref (status, body')), tr1 ++ tr2 ++ tr3 ++ pk ++ po), cache_store h c (q_method r) (key_uri st) pref status body') end"),
+    ('run_order_meets_spec',
+     'forall (h : hostcfg) (c : cache) (r : creq), host_desc (h_b h) -> serve_spec parsed_line h c r (serve present_parse h c r)'),
+    ('run_order_spec_determines',
+     'forall (line : bytes -> option parsed) (h : hostcfg) (c : cache) (r : creq) (o1 o2 : (outcome (N * bytes) * list event) * cache), serve_spec line h c r o1 -> serve_spec line h c r o2 -> o1 = o2'),
+    ('run_order_history_meets_spec',
+     'forall (es : list pedit) (o : hostopts) (rs : list creq), history_spec parsed_line (host_of (pconfig_build model_step es) o) [] rs (snd (scenario_model es o rs))'),
+    ('run_order_executable_spec_meets_spec',
+     'forall (es : list pedit) (o : hostopts) (rs : list creq), history_spec spec_present (host_of (pconfig_build ref_step es) o) [] rs (snd (scenario_spec es o rs))'),
+    ('run_order_history_spec_determines',
+     'forall (line : bytes -> option parsed) (h : hostcfg) (rs : list creq) (c : cache) (l1 l2 : list (outcome (N * bytes) * list event)), history_spec line h c rs l1 -> history_spec line h c rs l2 -> l1 = l2'),
+    ('parsed_line_on_grammar',
+     'forall (ws : list bytes) (crlf : bool) (rest : bytes), line_words_ok ws -> parsed_line (render_line ws crlf ++ rest) = Some {| p_entries := group_words None (nonempty_words ws); p_data_start := length (render_line ws crlf); p_body := rest |}'),
 ]
 
 RULE = ("Registry: for every history of add / add-with-no_override / remove on each of the five sorted extension vectors (and insert/remove on the three "
         "hash maps) the listing after every step equals the reference map's: descending priority, equal priority replaces, no_override takes the "
-        "greatest free priority at or below the requested one (panic exactly when all down to i32::MIN are taken), remove deletes exactly that "
-        "priority, no edit touches another list. '!> ' line: for every line of the grammar the parser returns the names and arguments in order and "
-        "data_start is the index just after the LF; for arbitrary bytes no panic and data_start <= len. Run order: per request the trace of marker "
-        "extensions is Prime* (list order, each seeing the previous rewrite), the path-bound Prepare or else the first matching predicate-bound one, "
-        "the Present extensions (predicate-bound, file-extension, then those of the '!> ' line in line order with exactly their arguments), then "
-        "every Package and every Post extension once, all in descending priority.")
+        "greatest free priority at or below the requested one (when all down to i32::MIN are taken: a panic or a refusal that leaves the vector as it "
+        "was), remove deletes exactly that priority, no edit touches another list; histories also start from what the running Extensions::new() lists. "
+        "'!> ' line: for every line of the grammar the parser returns the names and arguments in order and data_start is the index just after the LF; "
+        "for arbitrary bytes no panic and data_start <= len; reading the arguments from the back gives the reverse, any interleaving of next/next_back "
+        "is a deque. Run order: per request — generated or served from the response cache, GET / HEAD / other method, safe or unsafe path, with or "
+        "without a range, answered by a Prepare extension (also one that streams its body through a future), a file of the public directory or an error "
+        "page — the trace of marker extensions is Prime* "
+        "(every one, descending priority, each seeing the URI as the earlier ones left it), then only when the response is generated the path-bound "
+        "Prepare (looked up by the path of the override or request URI) or else the first matching predicate-bound one and the Present extensions "
+        "(predicate-bound, file-extension, then those of the '!> ' line in line order with exactly their arguments, forwards and reversed), then every "
+        "Package and every Post extension once per response, in descending priority; every marker is the closure registered last under its priority / key.")
 ASSUMPTIONS = [
     "priorities are i32 (the model uses Z and makes the checked_sub(1) at i32::MIN explicit); Id equality/order is by priority only, as impl Ord for Id",
-    "run-order theorems are about one request on a host without response cache and with the file system disabled (the fixture); cache hits skip "
-    "Prepare/Present by design (C03) and are outside this property's model",
-    "extension behaviours are arbitrary total functions of the request path in the theorems; the differential run instantiates them by the fixture menu "
-    "(rewrite rules, prefix predicates, static bodies) of harness/src/c16pipe.rs and Model/RunOrder.v",
-    "Path::extension is modelled on the fixture's path domain (segments of [a-z0-9.], no empty/./.. last segment)",
-    "slice::binary_search_by is the transcription of rustc 1.95's branch-free version (compared with the real one on arbitrary slices each run)",
+    "a response is one produced by handle_cache + SendKind::send for a host: the 409 (no such host) and 429 (limiter) answers of handle_connection "
+    "are sent before any host extension is consulted and run no extension; HTTP/2 push (SendKind::Push) runs Package but no Post by design (the push "
+    "extension itself is a Post extension); a client that closes the connection before the head is written gets no Post (send returns early)",
+    "extension behaviours are arbitrary total functions of the request URI in the theorems; the differential run instantiates them by the fixture menu "
+    "(rewrite rules, prefix predicates, static bodies with a server cache preference) of harness/src/c16pipe.rs and Model/RunOrder.v",
+    "the response cache is modelled as far as the run order needs it (look-up PathQuery then Path, stored after Present, GET/HEAD only, the default status "
+    "filter, Full / QueryMatters / None preference): no vary rules, no if-modified-since, no expiry, no size limit, no compression (C03/C04/C06 are about those)",
+    "Path::extension, sanitize_request and the file look-up are modelled on the fixture's URI domain (segments of [a-z0-9.], no percent-encoding, no fragment)",
+    "slice::binary_search_by is the transcription of rustc 1.95's branch-free version; it is compared exactly with the real one on partitioned slices "
+    "(all the registry can produce) and only for totality / index range on others, where std leaves the result unspecified",
+    "not fixed by the property and therefore compared by class: the status of an error response (any 4xx/5xx is one class), panic vs. refusal when "
+    "no_override finds no free priority, which of two different override URIs wins (not generated), the content of Extensions::new() (read from the harness)",
 ]
 TRUSTED = [
-    "hand transcription of add_sorted_list!/remove_sorted_list!, Extensions::{add,remove,get}_*, Extensions::new, resolve_* (src/extensions.rs), their call order in "
-    "src/lib.rs and of utils/src/extensions.rs (PresentExtensions::new and the two iterators), validated by the differential run",
-    "harness/src/c16.rs, harness/src/c16pipe.rs (marker extensions, loopback client: one connection per request, the server task is joined before the log is read)",
+    "hand transcription of add_sorted_list!/remove_sorted_list!, Extensions::{add,remove,get}_*, resolve_* (src/extensions.rs), of handle_cache / get_response / "
+    "handle_request / SendKind::send (src/lib.rs) as far as they decide which extensions run, and of utils/src/extensions.rs (PresentExtensions::new, the two "
+    "iterators incl. next_back), validated by the differential run",
+    "Model/RunSpec.v: the declarative reading of the property's run-order clauses (pinned by the spec_*_is theorems)",
+    "harness/src/c16.rs, harness/src/c16pipe.rs (marker extensions logging the index of the edit that registered them, loopback client: one connection per "
+    "request, the server task is joined before the log is read; temp public directory per scenario)",
+    "driver/props/c16.py: generators, the class-wise comparison named in the assumptions, and the model-free oracles (Python reference registry; strictly "
+    "descending listings; Prime/Package/Post = all registered, each once, highest priority first, in every reply)",
 ]
 LEVEL_TEXT = ("Machine-checked Coq theorems (no axioms) over transcriptions of the registry macros on rustc 1.95's binary_search_by, of the '!> ' line "
-              "parser with its iterators, and of the resolve_* drivers: binary_search_by returns Ok i iff element i is the target and Err i iff i is the "
-              "unique insertion point on every strictly sorted slice; every history of add / no_override / remove for all priorities yields exactly the "
-              "reference map's listings (refinement by induction over the history, invariant: strictly descending), also for the whole Extensions value "
-              "from empty() and new(); the parser never panics and data_start <= len for arbitrary bytes, and for every line of the grammar (any words, any "
-              "runs of spaces, '&>' separators also trailing, LF or CRLF) it returns the names and arguments in order with data_start just after the LF; "
-              "Prime extensions run sequentially each seeing the previous rewrite, a path-bound Prepare wins and only the first matching predicate-bound one "
-              "runs, Present extensions run in line order with their arguments, every Package and Post runs exactly once in descending priority. The models "
-              "are tied to the repository on every run by a differential run of the real Extensions::{add,remove,get}_*, PresentExtensions and of real "
-              "requests through kvarn::handle_connection with marker extensions; each case is also compared with the executable specification "
-              "(reference map / token-level reading of the line / right-hand side of present_line_spec).")
+              "parser with its iterators (next and next_back), and of the request path handle_cache -> get_response -> handle_request -> SendKind::send "
+              "with the resolve_* drivers: binary_search_by returns Ok i iff element i is the target and Err i iff i is the unique insertion point on "
+              "every strictly sorted slice; every history of add / no_override / remove for all priorities yields exactly the reference map's listings "
+              "(refinement by induction over the history, invariant: strictly descending), also for the whole Extensions value from empty(), new() and "
+              "any descending start state; the hash maps insert/replace/remove as maps; the parser never panics and data_start <= len for arbitrary "
+              "bytes, and for every line of the grammar (any words, any runs of spaces, '&>' separators also trailing, LF or CRLF) it returns the names "
+              "and arguments in order with data_start just after the LF; iter().rev() yields the reverse and every next/next_back interleaving is a "
+              "deque on the arguments. Run order: a DECLARATIVE specification (Model/RunSpec.v: the registry read as maps; Prime: all, once, descending, "
+              "each seeing the previous rewrite; Prepare: the path-bound one, else the matching predicate-bound one of highest priority; Present per "
+              "the first line; every Package and Post once for every response) that mentions neither the drivers nor the vector order is proved of "
+              "the model for every host with descending vectors, every cache state and every request (method, query, unsafe path, range), for whole "
+              "histories on hosts built by any edit sequence through the macros' model, and proved to determine answer, trace and cache uniquely; a "
+              "response served from the cache runs neither Prepare nor Present but every Prime, Package and Post. The models are tied to the "
+              "repository on every run by a differential run of the real Extensions::{add,remove,get}_*, PresentExtensions (forward, reversed, "
+              "interleaved) and of real request histories through kvarn::handle_connection with marker extensions (response cache on and off, files with "
+              "'!> ' lines, HEAD/POST, ranges, unsafe paths, queries, replaced closures); each case is also compared with the executable specification "
+              "(reference map / token-level reading of the line / deque) and checked by model-free oracles.")
 LEVEL_NOTE = ("Trusted: Coq kernel, extraction (ExtrOcamlBasic) reduced by an in-kernel recheck sample, the hand transcriptions as validated by the "
-              "differential run. Not covered: extensions run on a cache hit (none but Package/Post), HTTP/2 push (Post is skipped there by design), "
-              "async interleavings of two requests (extensions are immutable during serving), Path::extension outside the fixture's path domain, "
-              "next_back of the argument iterator. The three repaired defects are kept as _v0 refutation witnesses.")
+              "differential run, the declarative specification as a reading of the property. Bounded-exhaustive part of the quantifier as run: quick "
+              "every operation sequence up to length 3 over 6 priorities, 4 over 3, 5 over 2 (+12000 sampled up to 8); thorough up to 4 over 6, 6 over 3, "
+              "7 over 2 and 10 % of length 8 over 2 (the theorem covers all lengths and priorities). Not covered: HTTP/2 and push, streamed responses with "
+              "a declared length and protocol switches (a future of unknown length is covered), vary variants and 304 revalidation on a cache hit, async interleavings of two requests (extensions are immutable during "
+              "serving), Path::extension / sanitize outside the fixture's URI domain. The repaired defects are kept as _v0 refutation witnesses.")
 TECHNIQUE = ("Coq proof (loop invariant for binary search, refinement of the reference map for all histories, parser correctness for all inputs / all "
-             "grammar lines, run-order lemmas for arbitrary behaviours) + differential correspondence model vs. implementation (direct calls and real requests)")
+             "grammar lines, double-ended iterator = deque, pipeline model satisfies a declarative run-order specification that it is proved to "
+             "determine) + differential correspondence model vs. implementation (direct calls and real request histories) + model-free oracles")
